@@ -12,7 +12,12 @@ func (c *Conversation) processDisconnectedTLV(t tlv, x dataMessageExtra) (toSend
 	c.ake.wipe(true)
 	c.ake = nil
 
+	// the MAC keys used in the conversation that ends here (and those already waiting) are not needed
+	// any more; nothing can be sent in the finished state, so they wait for the first data message of
+	// the next conversation - as they do after End()
+	reveal := c.keys.macKeysToReveal()
 	c.keys.wipe()
+	c.keys.oldMACKeys = reveal
 
 	return nil, nil
 }
